@@ -5,6 +5,7 @@ package main
 // implicit "policy lock held" precondition of policy-domain code.
 
 import (
+	"os"
 	"fmt"
 	"go/ast"
 	"go/token"
@@ -206,7 +207,60 @@ func (vc *VC) guardCheckMap(st *State, m string, mt *types.Map, write bool) {
 	vc.guardOblige(st, goal, fmt.Sprintf("%s of map %s requires %s", mode, k, id))
 }
 
-func (vc *VC) chanMsgInv(st *State, ch ast.Expr, v Val, t types.Type) {}
+// chanMsgInv: message invariant of a channel field. `chanrecv_<field>(msg)` on the owner type lists, as ensures
+// clauses, what a receiver may assume about a message; each of them must be, with the same name and the same
+// source text, a requires clause of `chansend_<field>` (checked here), so every sender is obliged to establish
+// it. The clauses must speak about the message's own immutable content only (reviewed, not checked).
+func (vc *VC) chanMsgInv(st *State, ch ast.Expr, v Val, t types.Type) {
+	se, ok := unparen(ch).(*ast.SelectorExpr)
+	if !ok {
+		return
+	}
+	selInfo, ok := vc.info.Selections[se]
+	if !ok || selInfo.Kind() != types.FieldVal {
+		return
+	}
+	own := ownerName(selInfo.Recv())
+	ri, ok := vc.prog.fspec[own+".chanrecv_"+se.Sel.Name]
+	if !ok {
+		return
+	}
+	si, ok := vc.prog.fspec[own+".chansend_"+se.Sel.Name]
+	if !ok {
+		panic(unsupported("chanrecv_%s without chansend_%s", se.Sel.Name, se.Sel.Name))
+	}
+	src := func(x *SpecInfo, c *Clause) string {
+		f := vc.prog.fset.Position(c.Expr.Pos())
+		e := vc.prog.fset.Position(c.Expr.End())
+		b, err := os.ReadFile(f.Filename)
+		if err != nil {
+			return "?" + c.Name
+		}
+		return string(b[f.Offset:e.Offset])
+	}
+	recv := vc.eval(st, se.X)
+	b := vc.bindSpec(ri, recv, []Val{v}, nil)
+	saveOld := vc.oldState
+	for i := range ri.Clauses {
+		c := &ri.Clauses[i]
+		if c.Kind != "ensures" {
+			continue
+		}
+		matched := false
+		for j := range si.Clauses {
+			d := &si.Clauses[j]
+			if d.Kind == "requires" && d.Name == c.Name && src(si, d) == src(ri, c) {
+				matched = true
+			}
+		}
+		if !matched {
+			panic(unsupported("chanrecv_%s clause %s is not, verbatim, a requires clause of chansend_%s", se.Sel.Name, c.Name, se.Sel.Name))
+		}
+		vc.assume(st, vc.evalClause(st, ri, c.Expr, st))
+	}
+	vc.oldState = saveOld
+	vc.unbind(b)
+}
 
 // ---- monitor rule -------------------------------------------------------------------------------
 
